@@ -19,7 +19,7 @@ ASYNC = ["AsyncRetry.call", "AsyncRetry.execute", "AsyncRetry.context", "AsyncRe
          "AsyncRetryPolicy.call", "AsyncRetryPolicy.execute", "AsyncRetryPolicy.context",
          "AsyncRetryPolicyCfg.call", "adeco"]
 ALL24 = SYNC + ASYNC
-NO_DECO = [e for e in ALL24 if "deco" not in e]
+NO_DECO = [e for e in ALL24 if "deco" not in e] + ["RetryPolicySet.call", "AsyncRetryPolicySet.execute"]
 POLICY6 = ["Policy.call", "Policy.execute", "Policy.context", "AsyncPolicy.call",
            "AsyncPolicy.execute", "AsyncPolicy.context"]
 ALPHA = ["ok", "x:T", "x:U", "x:P", "r:T", "abort"]
@@ -58,9 +58,11 @@ def tasks(tier):
                          strat={"default": "ctx", "per": {}} if not pc else
                          {"default": "legacy", "per": {"T": "ctx"}}))
     cfgs.append(dict(base, M=1, budget={"max": 1, "window": 8}))
+    cfgs.append(dict(base, M=3, strat_obj=True, max_unknown=None))
     cfgs.append(dict(base, M=3, budget={"max": 1, "window": 8}, deadline=3))
     for cfg in cfgs:
         # family 1: callbacks at policy level, decorator included
+        cfg.setdefault("strat", {"default": "ctx", "per": {}})
         c1 = dict(cfg, handler="policy", before_sleep="policy", sleeper="policy")
         # family 2: callbacks per call, decorator left out
         c2 = dict(cfg, handler="call", before_sleep="call", sleeper="call")
